@@ -2,6 +2,7 @@ package props
 
 import (
 	"bufio"
+	"crypto/tls"
 	"errors"
 	"fmt"
 	"net/http"
@@ -26,7 +27,16 @@ type OriginCase struct {
 	Clean bool `json:"clean"`
 }
 
-var originHosts = []string{"a", "example.org", "example.org:8080", "a.b.example.org", "kats.example.org:8080", "sis.example.org", "[::1]:8080", "[2001:db8::1]", "10.0.0.8:8080", "localhost", "localhost:80", "xn--caf-dma.fr", "EXAMPLE.org:443", "i.kiss.example.org"}
+// longHost returns a syntactically fine host name of about n bytes.
+func longHost(n int) string {
+	var sb strings.Builder
+	for sb.Len() < n-12 {
+		sb.WriteString("label-of-some-length-" + fmt.Sprint(sb.Len()) + ".")
+	}
+	return sb.String() + "example.org"
+}
+
+var originHosts = []string{"a", longHost(253), longHost(300) + ":8443", "example.org", "example.org:8080", "a.b.example.org", "kats.example.org:8080", "sis.example.org", "[::1]:8080", "[2001:db8::1]", "10.0.0.8:8080", "localhost", "localhost:80", "xn--caf-dma.fr", "EXAMPLE.org:443", "i.kiss.example.org"}
 
 func splitHostPort(h string) (host, port string) {
 	if i := strings.LastIndex(h, ":"); i > strings.LastIndex(h, "]") {
@@ -218,6 +228,13 @@ func checkC13(c OriginCase, o *Obs) error {
 		o.Class("forwarding_headers_name_the_origin_host")
 	}
 	direct := &http.Request{Method: "GET", URL: &url.URL{Path: "/"}, Proto: "HTTP/1.1", ProtoMajor: 1, ProtoMinor: 1, Header: h, Host: c.Host}
+	if len(c.Host)%2 == 0 {
+		// the request arrived over TLS; the SNI name is the Host's name (what a
+		// browser sends) - it says nothing about the Origin
+		sni, _ := splitHostPort(c.Host)
+		direct.TLS = &tls.ConnectionState{ServerName: strings.Trim(sni, "[]"), HandshakeComplete: true}
+		o.Class("request_over_tls_with_sni")
+	}
 	if err := judge("direct", direct); err != nil {
 		return err
 	}
